@@ -286,11 +286,32 @@ class Env:
         elif k in ("option", "options"):
             if node["type"] not in ("int", "float", "str"):
                 raise Abort("options on a bool node", "C16", node["path"])
-            vals = [st["value"]] if k == "option" else list(st["values"])
+            ounit = st.get("unit")
+            if st.get("ref") is not None:
+                # an option (or the list of options) taken from another node: its current
+                # value, in the unit stated here or else in that node's unit
+                sel = self.resolve(st["ref"])
+                if len(sel) != 1:
+                    raise Abort("injection must select exactly one node", "C17",
+                                [ref_text(st["ref"]), len(sel)])
+                rnode = sel[0][1]
+                if rnode["value"] is None or rnode["type"] != node["type"]:
+                    raise Unspecified("option reference of another type or without value")
+                if (k == "options") != isinstance(rnode["value"], list):
+                    raise Unspecified("scalar / list mismatch of an option reference")
+                vals = list(rnode["value"]) if k == "options" else [rnode["value"]]
+                if ounit is None:
+                    ounit = rnode["unit"]
+                if (ounit is None) != (node["unit"] is None):
+                    raise Unspecified("option reference with / without unit")
+            else:
+                vals = [st["value"]] if k == "option" else list(st["values"])
             for lit in vals:
                 v = cast(node["type"], lit)
                 if node["type"] in ("int", "float"):
-                    v = self.convert(v, st.get("unit"), node["unit"], node["path"])
+                    v = self.convert(v, ounit, node["unit"], node["path"])
+                    if node["type"] == "int" and not all_integral(v):
+                        raise Unspecified("integer option converted by a non-integer factor")
                 node["options"].append(v)
         elif k == "condition":
             for lit, unit in cond_literals(st["expr"]):
@@ -798,8 +819,12 @@ def render(st):
     if k == "constant":
         return ind + "!constant"
     if k == "option":
+        if st.get("ref") is not None:
+            return ind + f"= {ref_text(st['ref'])}{u}"
         return ind + f"= {lit_text(st['value'])}{u}"
     if k == "options":
+        if st.get("ref") is not None:
+            return ind + f"!options {ref_text(st['ref'])}{u}"
         return ind + f"!options {lit_text(list(st['values']))}{u}"
     if k == "condition":
         q = '"' if "'" in cond_text(st["expr"]) else "'"
